@@ -81,6 +81,7 @@ const (
 // Script tells the scripted handler what to do for one request.
 type Script struct {
 	Parse    bool            `json:"parse"`    // call Parse() and record the projected result
+	Forward  string          `json:"forward"`  // the handler dispatches GET <Forward> through the same API value before it answers (an internal forward: the request context already carries what the first dispatch put there)
 	Reparse  bool            `json:"reparse"`  // call Parse() a second time on the same request (operations without a body): the step is stateless in the model, so the second outcome is judged like the first
 	Resp     string          `json:"resp"`     // name of the response type to return ("" = first implementer)
 	Code     int             `json:"code"`     // status for default responses
@@ -100,6 +101,8 @@ type caseCtx struct {
 	// credPrefix: how this case spells its valid credentials ("" or "Bearer "): the authenticators accept the
 	// scheme's valid credential in exactly that spelling
 	credPrefix string
+	api        http.Handler // the API value serving this case (for internal forwards)
+	nested     bool
 }
 
 var (
@@ -369,6 +372,22 @@ func handle(reg Registry, rec *Recorder, op OpInfo, ctxV, reqV reflect.Value) re
 		if cc.script.Reparse {
 			recordParse(rec, cc.id, reqV, cc.script.ReadBody)
 		}
+	}
+	if cc.script.Forward != "" && cc.api != nil && !cc.nested && hr != nil {
+		cc.nested = true
+		rec.Emit(Event{"ev": "NestedBegin", "case": cc.id, "path": cc.script.Forward})
+		func() {
+			defer func() {
+				if p := recover(); p != nil {
+					rec.Emit(Event{"ev": "NestedPanic", "case": cc.id, "panic": fmt.Sprint(p)})
+				}
+			}()
+			r2 := hr.Clone(hr.Context())
+			r2.Method, r2.URL, r2.RequestURI, r2.Body, r2.Header = "GET", &url.URL{Path: cc.script.Forward}, cc.script.Forward, http.NoBody, http.Header{}
+			cc.api.ServeHTTP(&countingWriter{hdr: http.Header{}}, r2)
+		}()
+		rec.Emit(Event{"ev": "NestedEnd", "case": cc.id})
+		cc.nested = false
 	}
 	return buildResponse(reg, rec, op, cc)
 }
